@@ -3,6 +3,8 @@ package sctp
 // C08 Graceful shutdown delivers everything first and completes on both sides.
 
 import (
+	"context"
+	"errors"
 	"fmt"
 	"strings"
 	"testing"
@@ -24,6 +26,7 @@ type c08Scn struct {
 	CrossUs int       `json:"crossus,omitempty"` // offset of the second Shutdown call (microseconds)
 	PostW   int       `json:"postw,omitempty"`   // writes attempted after the call
 	F       [][3]int  `json:"f"`                 // faults over the first 8 packets per direction sent after the call
+	CtxMs   int       `json:"ctxms,omitempty"`   // the caller's context expires after this many ms (0: never)
 }
 
 func (x c08Scn) e1() vfE1 {
@@ -80,6 +83,9 @@ func genC08(rt *rapid.T) c08Scn {
 		x.CrossUs = rapid.SampledFrom([]int{0, 1, 5000, 10137, 15000, 20274, 30000}).Draw(rt, "crossus")
 	}
 	x.PostW = rapid.IntRange(0, 2).Draw(rt, "postw")
+	if rapid.IntRange(0, 3).Draw(rt, "ctx") == 0 {
+		x.CtxMs = rapid.SampledFrom([]int{1, 15, 30, 300, 3000}).Draw(rt, "ctxms")
+	}
 	nf := rapid.IntRange(0, 6).Draw(rt, "nf")
 	seen := map[[2]int]bool{}
 	for i := 0; i < nf; i++ {
@@ -99,6 +105,7 @@ func runC08(t *testing.T, x c08Scn, verbose bool) vfCase {
 	var preCall []*vfWriteRec
 	var postCall []*vfWriteRec
 	outstandingAtCall := 0
+	ctxExpired := false
 	shutFault := false
 	out := vfRunE1(t, &sc, vfE1Opts{verbose: verbose,
 		bound: func(*vfSim) time.Duration { return time.Millisecond },
@@ -117,7 +124,15 @@ func runC08(t *testing.T, x c08Scn, verbose bool) vfCase {
 			s.mu.Unlock()
 			outstandingAtCall = s.as[x.Caller].BufferedAmount()
 			a := s.as[x.Caller]
-			calls[x.Caller] = s.spawn("shutdown", x.Caller, func() error { return a.Shutdown(contextBackground()) })
+			callAt := s.net.now()
+			calls[x.Caller] = s.spawn("shutdown", x.Caller, func() error {
+				if x.CtxMs > 0 {
+					ctx, cancel := context.WithTimeout(contextBackground(), time.Duration(x.CtxMs)*time.Millisecond)
+					defer cancel()
+					return a.Shutdown(ctx)
+				}
+				return a.Shutdown(contextBackground())
+			})
 			s.o.settle(0)
 			for i := 0; i < x.PostW; i++ {
 				w := s.doWrite(x.Caller, uint16(1+x.Caller), 10+i, 53)
@@ -155,7 +170,31 @@ func runC08(t *testing.T, x c08Scn, verbose bool) vfCase {
 			}
 			s.mu.Lock()
 			cerr := calls[x.Caller].Err
+			cerrV := calls[x.Caller].ErrV
+			retAt := calls[x.Caller].T1
 			s.mu.Unlock()
+			if x.CtxMs > 0 && errors.Is(cerrV, context.DeadlineExceeded) {
+				// the caller gave up waiting; the shutdown itself goes on in the background
+				c.class("shutdown-context-expired")
+				if d := retAt - callAt; d < time.Duration(x.CtxMs)*time.Millisecond {
+					c.fail("shutdown-context-early", "Shutdown returned the context's error after %v, before its %d ms deadline", d, x.CtxMs)
+					return
+				}
+				s.o.run(func() bool {
+					if !propagated && s.net.conns[1-x.Caller].isClosed() {
+						propagated = true
+						cc := s.net.conns[x.Caller]
+						s.o.after(2*time.Second, func() { cc.Close() })
+					}
+					return a.getState() == closed
+				}, time.Now().Add(bound))
+				if st := a.getState(); st != closed {
+					c.fail("shutdown-abandoned", "the caller's context expired after %d ms and the shutdown never completed: state %s %v later; %s", x.CtxMs, getAssociationStateString(st), bound, vfDescribeStall(s, out))
+					return
+				}
+				cerr = ""
+				ctxExpired = true
+			}
 			// the peer is closed at the latest when its transport closes: the harness closes it a
 			// while after the caller's transport went away (as DTLS would)
 			s.o.settle(3 * time.Second)
@@ -182,6 +221,9 @@ func runC08(t *testing.T, x c08Scn, verbose bool) vfCase {
 				if !d {
 					c.fail("crossed-shutdown-hangs", "the second (crossed) Shutdown call on side %d never returned", peer)
 				}
+			}
+			if ctxExpired {
+				return // "when Shutdown returns without error": it did not
 			}
 			if cerr != "" {
 				// Shutdown may legitimately fail only when the association was not established any more
